@@ -40,6 +40,8 @@ def generate(qualnames, tier="quick"):
             obligations.extend(obs)
         except Unsupported as e:
             info[q] = {"status": "unsupported", "reason": str(e)}
+            if os.environ.get("VERIF_DEBUG"):
+                traceback.print_exc()
         except AnchorMismatch as e:
             info[q] = {"status": "anchor-mismatch", "reason": str(e)}
         except Exception as e:  # noqa: BLE001
